@@ -30,7 +30,8 @@ Fmt == [
   exec      |-> [cmd |-> [w |-> 4, max |-> 2147483646], term |-> [w |-> 4, max |-> 2147483646]],
   userauth  |-> [user |-> [w |-> 2, max |-> 65535]],
   pfaddr    |-> [addr |-> [w |-> 2, max |-> 65535]],                                  \* portforwarding address packet
-  execfail  |-> [err |-> [w |-> 2, max |-> 65535]]                                    \* codex.SendFailure
+  execfail  |-> [err |-> [w |-> 2, max |-> 65535]],                                   \* codex.SendFailure
+  pembundle |-> [count |-> [w |-> 4, max |-> 2147483646]]                             \* a stream of PEM-encoded certificates (trust file): any number
 ]
 Codecs == DOMAIN Fmt
 
